@@ -61,6 +61,7 @@ struct TickitWatch {
     struct {
       pid_t pid;
       int wstatus; /* in case of pre-exited process */
+      TickitWatch *notify; /* in case of pre-exited process: the later that will deliver it */
     } process;
   };
 };
@@ -705,6 +706,9 @@ static int process_notify(Tickit *t, TickitEventFlags flags, void *_info, void *
 {
   TickitWatch *watch = data;
 
+  /* this later is being consumed; cancelling the process watch no longer has to cancel it */
+  watch->process.notify = NULL;
+
   tickit_evloop_invoke_processwatch(watch, TICKIT_EV_FIRE, watch->process.wstatus);
 
   return 0;
@@ -725,6 +729,7 @@ void *tickit_watch_process(Tickit *t, pid_t pid, TickitBindFlags flags, TickitCa
   watch->user = user;
 
   watch->process.pid = pid;
+  watch->process.notify = NULL;
 
   if(!t->evhooks->process ||
       !(*t->evhooks->process)(t->evdata, pid, flags, watch)) {
@@ -734,11 +739,11 @@ void *tickit_watch_process(Tickit *t, pid_t pid, TickitBindFlags flags, TickitCa
     if(waitpid(pid, &watch->process.wstatus, WNOHANG) > 0) {
       /* Process already exited, so SIGCHLD won't see it. We can't invoke
        * callback immediately as user will be expecting it to only be called via
-       * tickit_run(). We'll install a later handler for it
+       * tickit_run(). We'll install a later handler for it. The watch is linked
+       * like any other, so that it can be cancelled, is told about destruction
+       * and is released
        */
-      tickit_watch_later(t, 0, process_notify, watch);
-
-      return watch;
+      watch->process.notify = tickit_watch_later(t, 0, process_notify, watch);
     }
   }
 
@@ -803,6 +808,9 @@ void tickit_watch_cancel(Tickit *t, void *_watch)
         case WATCH_PROCESS:
           if(t->evhooks->cancel_process)
             (*t->evhooks->cancel_process)(t->evdata, this);
+          /* a pre-exited process: the later that would deliver it must not run */
+          if(this->process.notify)
+            tickit_watch_cancel(t, this->process.notify);
           break;
 
         case WATCH_NONE:
